@@ -1078,4 +1078,229 @@ theorem lazy_vs_eager_import_witness :
       [.error "nope.yaml not found in any of the following:\n/w\n/w/pipes\n/B"] := by
   refine ⟨?_, ?_, ?_⟩ <;> rfl
 
+/-! ## Pipeline names as arbitrary strings: `.yaml` is APPENDED to the name, nothing is cut off
+
+`file_name = f'{pipeline_name}.yaml'`. Different names never share a file name (`fileNameOf_injective`), so a
+file named after ANOTHER name — the stem of `build.v2` (`build.yaml`), the name without the suffix, `name.yml` —
+is never what a name resolves to, and whether such a file exists plays no part in the look-up
+(`file_of_other_name_never_chosen`, `resolution_reads_only_own_candidates`, `…_N`); the not-found error carries
+the requested file name in full (`not_found_names_requested_file`, `…_N`). -/
+
+/-- different names, different file names — for ALL strings (dots, spaces, `.yaml` already there, …) -/
+theorem fileNameOf_injective (a b : String) (h : fileNameOf a = fileNameOf b) : a = b :=
+  (String.append_left_inj ".yaml").mp h
+
+theorem fileNameOf_ne_of_ne (a b : String) (h : a ≠ b) : fileNameOf a ≠ fileNameOf b :=
+  fun e => h (fileNameOf_injective a b e)
+
+example : fileNameOf "build.v2" = "build.v2.yaml" ∧ fileNameOf "build.v2" ≠ fileNameOf "build" ∧
+    fileNameOf "p.yaml" = "p.yaml.yaml" ∧ fileNameOf "a/" = "a/.yaml" :=
+  ⟨rfl, fileNameOf_ne_of_ne _ _ (by decide), rfl, rfl⟩
+
+/-- the file name of a nested name: the directory components as they are, `.yaml` appended to the last -/
+theorem fileParts_append_last (ds : List String) (x : String) : fileParts (ds ++ [x]) = ds ++ [fileNameOf x] := by
+  induction ds with
+  | nil => rfl
+  | cons d ds ih =>
+    cases hds : ds ++ [x] with
+    | nil => simp at hds
+    | cons y ys =>
+      have : fileParts (d :: y :: ys) = d :: fileParts (y :: ys) := by simp [fileParts]
+      rw [List.cons_append, hds, this, ← hds, ih, List.cons_append]
+
+theorem fileParts_length (a : List String) : (fileParts a).length = a.length := by
+  induction a with
+  | nil => rfl
+  | cons x xs ih =>
+    cases xs with
+    | nil => rfl
+    | cons y ys => simp only [fileParts, List.length_cons] at ih ⊢; omega
+
+/-- different names (component lists), different file paths -/
+theorem fileParts_injective (a b : List String) (h : fileParts a = fileParts b) : a = b := by
+  induction a generalizing b with
+  | nil =>
+    cases b with
+    | nil => rfl
+    | cons y ys => have := congrArg List.length h; rw [fileParts_length, fileParts_length] at this; simp at this
+  | cons x xs ih =>
+    cases b with
+    | nil => have := congrArg List.length h; rw [fileParts_length, fileParts_length] at this; simp at this
+    | cons y ys =>
+      cases xs with
+      | nil =>
+        cases ys with
+        | nil =>
+          simp only [fileParts, List.cons.injEq, and_true] at h
+          rw [fileNameOf_injective x y h]
+        | cons z zs =>
+          have := congrArg List.length h; rw [fileParts_length, fileParts_length] at this; simp at this
+      | cons x' xs' =>
+        cases ys with
+        | nil => have := congrArg List.length h; rw [fileParts_length, fileParts_length] at this; simp at this
+        | cons z zs =>
+          simp only [fileParts, List.cons.injEq] at h
+          rw [h.1, ih (z :: zs) h.2]
+
+/-- `file_of_other_name_never_chosen`: what a relative name `n` resolves to is `<dir>/<n>.yaml` for one of the
+    searched directories, it exists, and it is NOT the candidate `<dir>/<m>.yaml` of any other name `m` in
+    that directory — a decoy named after the stem of `n`, after `n` without the suffix, … is never run. -/
+theorem file_of_other_name_never_chosen (fs : Fs) (n m : List String) (hnm : n ≠ m) (parent : Option Path) (p : Path)
+    (h : getPipelinePath fs (.rel n) parent = .ok p) :
+    ∃ d ∈ searchDirs fs parent, p = d ++ fileParts n ∧ fs.isFile p = true ∧ p ≠ d ++ fileParts m := by
+  obtain ⟨hf, before, after, hc, _⟩ := resolve_first_existing_pos fs n parent p h
+  have hp : p ∈ candidates fs parent n := by rw [hc]; simp
+  obtain ⟨d, hd, rfl⟩ := List.mem_map.mp hp
+  exact ⟨d, hd, rfl, hf, fun e => hnm (fileParts_injective n m (List.append_cancel_left e))⟩
+
+/-- … the same for an absolute name -/
+theorem abs_file_of_other_name_never_chosen (fs : Fs) (n m : List String) (hnm : n ≠ m) (parent : Option Path) (p : Path)
+    (h : getPipelinePath fs (.abs n) parent = .ok p) : p = fileParts n ∧ p ≠ fileParts m := by
+  rw [resolve_absolute_only] at h
+  split at h
+  · cases h; exact ⟨rfl, fun e => hnm (fileParts_injective n m e)⟩
+  · cases h
+
+/-- the look-up of `n` depends on the files of the file system ONLY through the existence of `n`'s own
+    candidates: two file systems that agree on those (and on the directories) resolve `n` alike, whatever
+    other files — decoys of any name, in any searched place — one has and the other has not. -/
+theorem resolution_reads_only_own_candidates (fs fs' : Fs) (n : List String) (parent : Option Path)
+    (hcwd : fs.cwd = fs'.cwd) (hb : fs.builtin = fs'.builtin) (hdir : fs.dirExists = fs'.dirExists)
+    (hown : ∀ q ∈ candidates fs parent n, fs.isFile q = fs'.isFile q) :
+    getPipelinePath fs (.rel n) parent = getPipelinePath fs' (.rel n) parent := by
+  have hs : searchDirs fs' parent = searchDirs fs parent := by
+    simp only [searchDirs, cwdPipelines, hcwd, hb, hdir]
+  have hc : candidates fs' parent n = candidates fs parent n := by simp only [candidates, hs]
+  rw [resolve_first_existing, resolve_first_existing, hc, hs]
+  have : (candidates fs parent n).find? fs.isFile = (candidates fs parent n).find? fs'.isFile := by
+    generalize candidates fs parent n = cs at hown
+    induction cs with
+    | nil => rfl
+    | cons c cs ih =>
+      simp only [List.find?_cons, hown c (by simp)]
+      rw [ih (fun q hq => hown q (by simp [hq]))]
+  rw [this]
+
+/-- decoy file system: as `exFsD`, plus / minus the decoys `build.yaml` in every searched place -/
+def exFsD (decoys : Bool) : Fs :=
+  { cwd := ["w"], builtin := ["b"],
+    isFile := fun p => p == ["w", "pipelines", "build.v2.yaml"] ||
+      (decoys && (p == ["p", "build.yaml"] || p == ["w", "build.yaml"] || p == ["w", "pipelines", "build.yaml"])),
+    dirExists := fun d => d == ["w"] || d == ["w", "pipelines"] || d == ["b"] || d == ["p"] }
+
+example : getPipelinePath (exFsD true) (.rel ["build.v2"]) (some ["p"]) = .ok ["w", "pipelines", "build.v2.yaml"] ∧
+    getPipelinePath (exFsD false) (.rel ["build.v2"]) (some ["p"]) = .ok ["w", "pipelines", "build.v2.yaml"] ∧
+    getPipelinePath (exFsD true) (.rel ["build"]) (some ["p"]) = .ok ["p", "build.yaml"] ∧
+    (["build.v2"] : List String) ≠ ["build"] := by
+  refine ⟨rfl, rfl, rfl, by decide⟩
+
+example : getPipelinePath (exFsD true) (.rel ["build.v2"]) (some ["p"]) =
+    getPipelinePath (exFsD false) (.rel ["build.v2"]) (some ["p"]) :=
+  resolution_reads_only_own_candidates _ _ _ _ rfl rfl rfl (by decide +kernel)
+
+/-- `not_found_names_requested_file`: when none of `n`'s candidates exists, the error names the requested file —
+    the directory components as written and `<last>.yaml` with the last component in FULL — and the searched
+    directories. -/
+theorem not_found_names_requested_file (fs : Fs) (ds : List String) (x : String) (parent : Option Path)
+    (h : ∀ q ∈ candidates fs parent (ds ++ [x]), fs.isFile q = false) :
+    getPipelinePath fs (.rel (ds ++ [x])) parent =
+      .error (notFoundMsg ("/".intercalate (ds ++ [fileNameOf x])) (searchDirs fs parent)) := by
+  rw [(not_found_lists_searched fs (ds ++ [x]) parent h).1, fileParts_append_last]
+  rfl
+
+example : getPipelinePath (exFsD true) (.rel ["sub", "grand.v1.0"]) (some ["p"]) =
+    .error "sub/grand.v1.0.yaml not found in any of the following:\n/p\n/w\n/w/pipelines\n/b" := by
+  rfl
+
+/-! ### the same on the raw string (`getPipelinePathN`: any name, also with empty / `.` segments) -/
+
+/-- the string layer is the layer above wherever the name is clean: when pathlib's reading of `<name>.yaml` is
+    `fileParts parts` and the string is those components joined -/
+theorem getPipelinePathN_eq_S (fs : Fs) (sub : List String) (name : String) (parts : List String) (parent : Option Path)
+    (hrel : (fileNameOf name).startsWith "/" = false)
+    (hparts : partsOfStr (fileNameOf name) = fileParts parts)
+    (hstr : fileNameOf name = "/".intercalate (fileParts parts)) :
+    getPipelinePathN fs sub name parent = getPipelinePathS fs sub (.rel parts) parent := by
+  simp only [getPipelinePathN, getPipelinePathS, hrel, hparts, ← hstr]
+  rfl
+
+theorem getPipelinePathN_eq_S_abs (fs : Fs) (sub : List String) (name : String) (parts : List String) (parent : Option Path)
+    (habs : (fileNameOf name).startsWith "/" = true)
+    (hparts : partsOfStr (fileNameOf name) = fileParts parts) :
+    getPipelinePathN fs sub name parent = getPipelinePathS fs sub (.abs parts) parent := by
+  simp only [getPipelinePathN, getPipelinePathS, habs, hparts]
+  rfl
+
+example (fs : Fs) (parent : Option Path) :
+    getPipelinePathN fs ["pipelines"] "sub/grand.v1.0" parent = getPipelinePath fs (.rel ["sub", "grand.v1.0"]) parent := by
+  rw [getPipelinePathN_eq_S fs _ "sub/grand.v1.0" ["sub", "grand.v1.0"] parent (by decide +kernel) (by decide +kernel)
+    (by decide +kernel), getPipelinePathS_default]
+
+/-- for EVERY string: what a relative name resolves to is `<dir>/<pathlib reading of name.yaml>` for a searched
+    directory, and it exists -/
+theorem resolve_first_existing_N (fs : Fs) (sub : List String) (name : String) (parent : Option Path)
+    (hrel : (fileNameOf name).startsWith "/" = false) :
+    getPipelinePathN fs sub name parent =
+      match ((searchDirsS fs sub parent).map (· ++ partsOfStr (fileNameOf name))).find? fs.isFile with
+      | some p => .ok p
+      | none => .error (notFoundMsg (fileNameOf name) (searchDirsS fs sub parent)) := by
+  simp only [getPipelinePathN, hrel, findPipeline_eq_find]
+  rfl
+
+/-- for EVERY string: the not-found error carries exactly `name ++ ".yaml"` and the searched directories -/
+theorem not_found_names_requested_file_N (fs : Fs) (sub : List String) (name : String) (parent : Option Path) (e : String)
+    (hrel : (fileNameOf name).startsWith "/" = false)
+    (h : getPipelinePathN fs sub name parent = .error e) :
+    e = name ++ ".yaml" ++ " not found in any of the following:\n" ++
+          "\n".intercalate ((searchDirsS fs sub parent).map pathStr) ∧
+    ∀ d ∈ searchDirsS fs sub parent, fs.isFile (d ++ partsOfStr (fileNameOf name)) = false := by
+  rw [resolve_first_existing_N fs sub name parent hrel] at h
+  split at h
+  · cases h
+  · rename_i hnone
+    cases h
+    refine ⟨rfl, fun d hd => ?_⟩
+    have := List.find?_eq_none.mp hnone (d ++ partsOfStr (fileNameOf name)) (List.mem_map.mpr ⟨d, hd, rfl⟩)
+    simpa using this
+
+/-- for EVERY string: the look-up reads the files only through the name's own candidates -/
+theorem resolution_reads_only_own_candidates_N (fs fs' : Fs) (sub : List String) (name : String) (parent : Option Path)
+    (hcwd : fs.cwd = fs'.cwd) (hb : fs.builtin = fs'.builtin) (hdir : fs.dirExists = fs'.dirExists)
+    (hown : ∀ d ∈ searchDirsS fs sub parent, fs.isFile (d ++ partsOfStr (fileNameOf name)) =
+                                              fs'.isFile (d ++ partsOfStr (fileNameOf name)))
+    (hownAbs : fs.isFile (partsOfStr (fileNameOf name)) = fs'.isFile (partsOfStr (fileNameOf name))) :
+    getPipelinePathN fs sub name parent = getPipelinePathN fs' sub name parent := by
+  have hs : searchDirsS fs' sub parent = searchDirsS fs sub parent := by
+    simp only [searchDirsS, hcwd, hb, hdir]
+  cases habs : (fileNameOf name).startsWith "/" with
+  | true => simp [getPipelinePathN, habs, hownAbs]
+  | false =>
+    rw [resolve_first_existing_N _ _ _ _ habs, resolve_first_existing_N _ _ _ _ habs, hs]
+    have : ((searchDirsS fs sub parent).map (· ++ partsOfStr (fileNameOf name))).find? fs.isFile =
+           ((searchDirsS fs sub parent).map (· ++ partsOfStr (fileNameOf name))).find? fs'.isFile := by
+      generalize searchDirsS fs sub parent = dsl at hown
+      induction dsl with
+      | nil => rfl
+      | cons c cs ih =>
+        simp only [List.map_cons, List.find?_cons, hown c (by simp)]
+        rw [ih (fun q hq => hown q (by simp [hq]))]
+    rw [this]
+
+/-- results compared by a decidable test (for the concrete examples) -/
+def sameRes : Except String Path → Except String Path → Bool
+  | .ok p, .ok q => p == q
+  | .error a, .error b => a == b
+  | _, _ => false
+
+theorem sameRes_eq {a b : Except String Path} (h : sameRes a b = true) : a = b := by
+  cases a <;> cases b <;> simp_all [sameRes]
+
+example : getPipelinePathN (exFsD true) ["pipelines"] "build.v2" (some ["p"]) = .ok ["w", "pipelines", "build.v2.yaml"] ∧
+    getPipelinePathN (exFsD true) ["pipelines"] ".//build.v2" (some ["p"]) = .ok ["w", "pipelines", "build.v2.yaml"] ∧
+    getPipelinePathN (exFsD true) ["pipelines"] "build" none = .ok ["w", "build.yaml"] ∧
+    getPipelinePathN (exFsD true) ["pipelines"] "a/" none =
+      .error "a/.yaml not found in any of the following:\n/w\n/w/pipelines\n/b" :=
+  ⟨sameRes_eq (by decide +kernel), sameRes_eq (by decide +kernel), sameRes_eq (by decide +kernel),
+   sameRes_eq (by decide +kernel)⟩
+
 end Pypyr.C19
